@@ -309,6 +309,51 @@ def pool_doc(pool):
     return b"[" + b"\n".join(pool) + b"]"
 
 
+def fetch_history_scripts(clj):
+    """scripts in which edn_string_get is applied to one / the other / both of two equal strings (as values, as a map
+    key, as a set element, as the probe) in every order of up to 2 calls before equality, lookup, membership and the
+    string-key helper are asked.  Returns [(literal, [script...])]; the answers after the prefix must be identical
+    for every prefix of one literal, and the first six must be 1;1;idx0;1;1;1."""
+    import itertools
+    strs = [b'"a"', b'""', b'"a\\n"', b'"\\\\"', b'"say \\"hi\\""', b'"a\\tb"', b'"x' + b"y" * 40 + b'\\n"',
+            b'"plain string of some length"', b'"\\n\\n\\n\\n"']
+    out = []
+    for s_ in strs:
+        dec = refs.unescape(s_[1:-1], clj)
+        twin = b'"' + dec.replace(b"\\", b"\\\\").replace(b'"', b'\\"') + b'"'     # raw spelling of the same content
+        head = "script P0=%s;P1=%s;P2=%s;P3=%s;P4=%s;" % (hexs(b"[" + s_ + b"]"), hexs(b"[" + s_ + b"]"), hexs(b"{" + s_ + b" :v}"),
+                                                         hexs(b"#{" + s_ + b"}"), hexs(b"[" + twin + b"]"))
+        tail = "E0.0,1.0;E1.0,0.0;L2,0.0;K2,1.0;S3,0.0;S3,1.0;T2,%s;L2,4.0;S3,4.0;E0.0,4.0" % hexs(dec)
+        scs = []
+        for k in range(0, 3):
+            for perm in itertools.permutations(["G0.0", "G1.0", "G2.0", "G3.0", "G4.0"], k):
+                scs.append((k, head + "".join(o + ";" for o in perm) + tail))
+        out.append((s_, scs))
+    return out
+
+
+def check_fetch_histories(res, cfg, kind):
+    clj = cfg[0] == "1"
+    groups = fetch_history_scripts(clj)
+    flat = [sc for _, scs in groups for _, sc in scs]
+    impl, model = correspond(res, cfg, "san", flat, label="string-fetch-histories")
+    pos = 0
+    for s_, scs in groups:
+        base = None
+        for (k, sc) in scs:
+            a = impl[pos]; pos += 1
+            res.count("string-fetch-history")
+            res.nontrivial.add((cfg, "fetch-history", sc[-90:]))
+            if is_crash(a):
+                res.violations.append(Violation(kind, sc, a[:200], cfg)); continue
+            tail = a.split(";")[5 + k:]
+            if base is None:
+                base = tail
+            if tail != base or tail[:6] != ["1", "1", "idx0", "1", "1", "1"]:
+                res.violations.append(Violation(kind, sc, "literal %r: answers %s after %d string fetches, %s on fresh values"
+                                                % (s_[:40], ";".join(tail), k, ";".join(base)), cfg))
+
+
 # =============================================================================== C07
 @prop("C07")
 def check_c07(res):
@@ -432,6 +477,8 @@ def check_c07(res):
             if is_crash(a) or out[:3] != ["ok", "ok", "ok"] or out[3:7] != ["1", "1", "0", "0"] or out[7] != out[8] or out[9:11] != ["1", "0"]:
                 res.violations.append(Violation("unordered-collection-equality-wrong", ln[:3000],
                                                 "%s of %d elements vs permuted / changed copy: %s" % (kind_, n_, ";".join(out[3:])[:200]), cfg))
+        # equality / lookup answers before and after edn_string_get on either operand
+        check_fetch_histories(res, cfg, "equality-or-lookup-depends-on-string-fetch")
         # deeply nested values: two reads of the same document must be equal with equal hashes at every depth
         dl, dm = [], []
         for (o, c_) in ((b"[", b"]"), (b"(", b")"), (b"{:k ", b"}"), (b"#{", b"}"), (b"#t ", b"")):
@@ -597,6 +644,34 @@ def check_c08(res):
             if not twin and not a.startswith("OK "):
                 res.violations.append(Violation("distinct-elements-rejected", ln[:100000],
                                                 "%s of %d distinct %s elements: %s" % (coll, count, kind, a[:120]), cfg))
+        # the verdict under memory pressure: when the hash table (or any other request) cannot be allocated the reader
+        # may report out-of-memory, but a literal holding an equal pair must never be ACCEPTED.  Every single request
+        # k and every "all requests from k on" schedule, through the EDN_C_VERIF allocation hook.
+        fdocs = []
+        for (a_, b_) in twins[:2] + twins[7:10] + twins[14:15]:
+            for n_ in (20, 300):
+                filler = [b"[%d x]" % i for i in range(n_ // 2)] + [b"%d" % i for i in range(n_ // 2)]
+                seq = list(filler); seq.insert(1, a_); seq.insert(n_ // 2 + 3, b_)
+                fdocs.append(b"#{" + b" ".join(seq) + b"}")
+                fdocs.append(b"{" + b" ".join(x + b" 0" for x in seq) + b"}")
+        fdocs.append(b"#{" + b" ".join(b"%d" % (i % 1050) for i in range(1100)) + b"}")
+        fcounts = runner.run_impl(cfg, "fail", ["failcount %s" % hexs(d) for d in fdocs])
+        flines = []
+        for d, cobs in zip(fdocs, fcounts):
+            if is_crash(cobs) or not cobs.split(" ", 1)[1].startswith("ERR"):
+                continue                       # accepted without any failure: already reported above
+            n_ = int(cobs.split(" ", 1)[0])
+            for k in sorted(set(list(range(0, n_, max(1, n_ // 60))) + list(range(max(0, n_ - 12), n_)))):
+                flines.append("failat %d %s" % (k, hexs(d)))
+                flines.append("failfrom %d %s" % (k, hexs(d)))
+        fimpl = runner.run_impl(cfg, "fail", flines)
+        res.evaluations += len(flines)
+        for ln, a in zip(flines, fimpl):
+            res.count("dup-under-allocation-failure")
+            res.nontrivial.add((cfg, "fault", ln[:40], len(ln)))
+            if is_crash(a) or a.startswith("OK "):
+                res.violations.append(Violation("duplicate-accepted-under-allocation-failure", ln[:100000],
+                                                "literal with an equal pair: %s" % a[:120], cfg))
         res.sample({"cfg": cfg, "doc": lines[3][:200]})
 
 
@@ -729,6 +804,7 @@ def check_c09(res):
                                                             "key %d written with an escape: helper returned %s" % (want[1], got), cfg))
                     elif got != "idx%d" % want:
                         res.violations.append(Violation("helper-disagrees-with-lookup", ln[:3000], "entry %d: %s" % (want, got), cfg))
+        check_fetch_histories(res, cfg, "lookup-depends-on-string-fetch")
         res.sample({"cfg": cfg, "script": scripts[2][:300]})
 
 
@@ -838,6 +914,28 @@ def check_c05(res):
                                                 "literal %s (%d chars): implementation %s, correctly rounded %s" % (lit[:60], nchars, a[:60], want[:60]), cfg))
         leaf = ["double %s" % l.encode().hex() for l in lits[:800]]
         correspond(res, cfg, "prod", leaf, label="parse_double")
+        # long literals under memory pressure (EDN_C_VERIF allocation hook): whichever single request fails, the read
+        # reports an error or the correctly rounded double of the WHOLE literal, never the value of a truncated copy
+        longs = ["1234567890" * 60 + "e-590", "0." + "0" * 600 + "25e601", "1" + "0" * 600 + ".5e-300",
+                 "-" + "9" * 511 + ".5e-500", "7" * 512, "3." + "1" * 509, "3." + "1" * 510 + "e2"]
+        flines, fmeta = [], []
+        counts = runner.run_impl(cfg, "fail", ["failcount %s" % hexs(l.encode()) for l in longs])
+        for lit, cobs in zip(longs, counts):
+            if is_crash(cobs):
+                continue
+            for k in range(int(cobs.split(" ", 1)[0])):
+                for mode in ("failat", "failfrom"):
+                    flines.append("%s %d %s" % (mode, k, hexs(lit.encode())))
+                    fmeta.append(lit)
+        fimpl = runner.run_impl(cfg, "fail", flines)
+        res.evaluations += len(flines)
+        for lit, ln, a in zip(fmeta, flines, fimpl):
+            res.count("long-literal-under-allocation-failure")
+            res.nontrivial.add((cfg, ln[:12], lit[:8], len(lit)))
+            want = "OK float:%s@0-%d calls=0" % (refs.expect_float_bits(lit, exp), len(lit))
+            if is_crash(a) or (a.startswith("OK ") and a != want) or not (a.startswith("OK ") or a.startswith("ERR ")):
+                res.violations.append(Violation("float-of-truncated-literal-under-allocation-failure", ln,
+                                                "literal %s... (%d chars): %s, correctly rounded %s" % (lit[:30], len(lit), a[:60], want[:60]), cfg))
         res.sample({"cfg": cfg, "literal": lits[7]})
 
 
@@ -949,6 +1047,38 @@ def check_c06(res):
                     exp3.append("1" if op.split(",")[1] == hexs(dec) else "0")
             if is_crash(a) or first3 != exp3 or out[4] != want_g or out[6] != want_g or out[7] != "1":
                 res.violations.append(Violation("string-get-unstable-or-equals-disagrees", ln, "%s (expected %s then get %s)" % (a[:200], exp3, want_g[:60]), cfg))
+        # several strings of ONE document fetched in interleaved order: a later lazy materialisation (another string's
+        # decode buffer, or any other arena request) must not disturb a buffer handed out earlier.  Decoded lengths
+        # sit around the arena's 8-byte granule and the usual block sizes.
+        scripts, smeta = [], []
+        escs = [b"\\n", b"\\t", b"\\\\", b'\\"'] + ([b"\\u00e9", b"\\101"] if clj else [])
+        lens = [1, 7, 8, 9, 15, 16, 17, 24, 31, 32, 33, 64, 255, 256, 4088, 4096] if thorough else [7, 8, 9, 16, 24, 32, 64, 256, 4096]
+        for L in lens:
+            for esc_ in escs:
+                declen = len(refs.unescape(esc_, clj))
+                first = esc_ + b"b" * (L - declen)                        # decoded length exactly L
+                others = [rnd.choice([b"xyz", b"x\\ny", b"q" * rnd.choice([1, 8, 16, 40]) + b"\\t", b"plain"]) for _ in range(3)]
+                strs = [first] + others
+                doc = b"[" + b" ".join(b'"' + s_ + b'"' for s_ in strs) + b"]"
+                decs = [refs.unescape(s_, clj) for s_ in strs]
+                for order in ([0, 1, 0, 2, 0, 3, 1, 0], [1, 0, 2, 1, 0, 3, 3, 0], [0, 0, 1, 2, 3, 0, 1, 2]):
+                    ops = []
+                    for i_ in order:
+                        ops.append("G0.%d" % i_)
+                        ops.append("Q0.%d,%s" % (i_, hexs(decs[i_])))
+                    scripts.append("script P0=%s;%s" % (hexs(doc), ";".join(ops)))
+                    smeta.append((doc, decs, order))
+        impl, model = correspond(res, cfg, "san", scripts, label="interleaved-string-gets")
+        for (doc, decs, order), ln, a in zip(smeta, scripts, impl):
+            res.count("interleaved-gets")
+            out = a.split(";")
+            want = ["ok"]
+            for i_ in order:
+                want += ["%d:%s" % (len(decs[i_]), hexs(decs[i_])), "1"]
+            if is_crash(a) or out != want:
+                bad = next((k for k, (x, y) in enumerate(zip(out, want)) if x != y), len(out))
+                res.violations.append(Violation("string-buffer-disturbed-by-later-fetch", ln,
+                                                "doc %r order %s: result %d is %s, expected %s" % (doc[:60], order, bad, (out[bad] if bad < len(out) else "missing")[:80], (want[bad] if bad < len(want) else "-")[:80]), cfg))
         res.sample({"cfg": cfg, "literal": lines[0][:120]})
 
 
@@ -1008,6 +1138,14 @@ def c10_predictable(rnd, cfg, n):
                 out.append((tok, {cls}))
     if not clj:
         out += [(b"01", {"INVALID_NUMBER"}), (b"-007", {"INVALID_NUMBER"}), (b"[00]", {"INVALID_NUMBER"})]
+    # an identifier with a doubled colon at EVERY offset of tokens that span one, two and three 16-byte blocks,
+    # alone (end of input right after it) and followed by a long tail; symbols, keywords, namespaced, tags
+    for L in (6, 17, 18, 20, 33, 36, 50):
+        for off in range(1, L - 2):
+            tok = b"a" * off + b"::" + b"b" * (L - off - 2)
+            for t_ in (tok, b":" + tok, b"n/" + tok, b"#" + tok + b" 1"):
+                out.append((t_, {"INVALID_SYNTAX"}))
+                out.append((b"[" + t_ + b" 1 2 3 4 5 6 7 8 9 10 11 12]", {"INVALID_SYNTAX"}))
     # a number token glued to a byte that neither continues nor terminates a number
     for num in (b"1", b"42", b"3.5", b"-7N", b"1e5", b"2.5M", b"0"):
         for glue in (b"\\a", b"\\newline", b"\x7f", b"'", b"~", b"@", b"`", b"\x01", b"\x80", b"\xc3\xa9", b"|", b"$", b"!"):
@@ -1195,6 +1333,25 @@ def check_c01(res):
                 res.violations.append(Violation("fault-at-guard-page", ln, a, cfg))
             elif a != b and not is_crash(b):
                 res.violations.append(Violation("production-build-differs", ln, "%s vs %s" % (a[:120], b[:120]), cfg))
+        # memory the library hands out must be aligned for what it holds: tag handlers that request scratch blocks of
+        # ODD sizes from the arena (small, and larger than the arena's block sizes so that the request opens a new
+        # block), followed by more values in the same document; text blocks longer than an arena block
+        hl = []
+        for sizes in ([1, 3, 7, 9, 15], [16383, 5, 16385, 1], [20001], [65537, 3, 100001], [4093, 4099, 8191, 8193, 12289, 1, 1, 1],
+                      [rnd.randrange(1, 70000) | 1 for _ in range(6)]):
+            body = b" ".join(b"#x %d [%d :k \"s\\n\" {:a 1.5} 12345678901234567890N]" % (n_, n_) for n_ in sizes)
+            hl.append(docline(b"[" + body + b" #x :not-an-int (1 2 3)]", reg="x:4"))
+        if cfg[1] == "1":
+            for L in (100, 16000, 20000, 70000):
+                tb = b'"""\n' + b"".join(b"  line %d of the block\n" % i for i in range(L // 24)) + b'  """'
+                hl.append(docline(b"[" + tb + b" [1 2 3] \"after\" {:a 1} " + tb + b" :end]"))
+        himpl, hmodel = correspond(res, cfg, "san", hl, label="handler-scratch-and-long-blocks")
+        for ln, a in zip(hl, himpl):
+            res.nontrivial.add(ln[:200])
+            res.count("arena-alignment")
+            if is_crash(a) or "!MISALIGNED" in a:
+                res.violations.append(Violation("misaligned-or-invalid-arena-memory:" + (refs.crash_class(a) if is_crash(a) else "alignment"),
+                                                ln[:200000], a[:200], cfg))
         # accessors on the returned trees
         scripts = []
         for d in docs[: (300 if thorough else 100)]:
@@ -1598,7 +1755,7 @@ def c16_corpus(cfg):
             b"#{" + b" ".join(str(i).encode() for i in range(1100)) + b"}",
             b"#{" + b" ".join(("[%d]" % i).encode() for i in range(30)) + b"}",
             b"[" + b" ".join(b'"s%d\\n"' % i for i in range(40)) + b"]",
-            b"1." + b"5" * 600, b"[" + b"x" * 20000 + b" 1]",
+            b"1." + b"5" * 600, b"[" + b"x" * 20000 + b" 1]", b"1234567890" * 60 + b"e-590", b"0." + b"0" * 600 + b"25e601",
             # duplicates that only the hash-based / sort-based strategies see (rejected in the failure-free run:
             # under a fault the result must stay an error)
             b"#{" + b" ".join(("[%d]" % (i % 19)).encode() for i in range(20)) + b"}",
@@ -2425,6 +2582,37 @@ def check_c02(res):
                 res.nontrivial.add(ln)
                 if is_crash(o):
                     res.violations.append(Violation("ratio-literal-crash-or-hang", ln, o[:120], cfg))
+        # (e) reads with a handler registry that has a HISTORY (every tag registered, some or all registered again, some
+        # removed and added back): whatever the registry went through, a read must return, for registered and for
+        # unregistered tags in every bucket, under each default-reader mode
+        tags_ = ["t%d" % i for i in range(48)]
+        hist = {"twice": tags_ + tags_, "older-again": tags_ + tags_[:24], "newer-again": tags_ + tags_[24:],
+                "reversed-again": tags_ + tags_[::-1], "thrice-interleaved": [t for t in tags_ for _ in range(3)] + tags_[::3]}
+        probes = ["inst", "uuid", "my/tag", "x", "unknown"] + ["u%d" % i for i in range(40)] + tags_[::5]
+        pdocs = [b"#" + t.encode() + b" 1" for t in probes] + [b"[" + b" ".join(b"#" + t.encode() + b" " + b"%d" % i for i, t in enumerate(probes)) + b"]"]
+        stop = False
+        for hname, seq in hist.items():
+            spec = ",".join("%s:%d" % (t, (i * 7) % 4) for i, t in enumerate(seq))
+            for mode in (0, 1, 2):
+                rl_ = [docline(d, reg=spec, mode=mode) for d in pdocs]
+                ri_ = runner.run_impl(cfg, "san", rl_, timeout=40, max_crashes=1)
+                rm_ = runner.run_model(cfg, rl_)
+                res.evaluations += len(rl_)
+                for ln, a, mo in zip(rl_, ri_, rm_):
+                    res.count("registry-history-read")
+                    res.nontrivial.add((cfg, "reghist", hname, mode, ln[4:40]))
+                    if is_crash(a) or a.startswith("MISSING"):
+                        res.violations.append(Violation("read-with-registry-history-does-not-return", ln, "registry history %s, mode %d: %s (model: %s)" % (hname, mode, a[:100], mo[:60]), cfg))
+                        stop = True
+                        break
+                    res.traces += 1
+                    if a != mo:
+                        res.corr_breaks.append({"cfg": cfg, "build": "san", "case": ln[:2000], "impl": a[:1500], "model": mo[:1500],
+                                                "suite": "registry-history-reads"})
+                if stop:
+                    break
+            if stop:
+                break
         # (d) generated documents under the limits
         g = Gen(res.seed * 13 + int(cfg, 2), clj=cfg[0] == "1", exp=cfg[1] == "1")
         docs = [g.document(5) for _ in range(400 if thorough else 150)]
